@@ -16,8 +16,9 @@ Oracle (value cases)
      the schema quoted in their docstring. Integers must be the same Python int (True/False for a one-bit field and 0/1 for
      a Bool are accepted), bits256 fields must be the same bytes.      <innermost Type>/<field path>/<kind>
          kind = unsigned-read-signed (an unsigned field came back as value - 2^width), missing (no such attribute), differs
-     The failure is named after the INNERMOST constructor that holds the field, so that one parser defect has one signature
-     wherever the type is nested (ExtBlkRef/end_lt/... whether found through BlockInfo, BlkPrevInfo or McStateExtra).
+     <Type> is the innermost covered type that is wrong on its own (see "Naming the root cause" (b)), so that one parser
+     defect has one signature wherever the type is nested (ExtBlkRef/end_lt/... whether found through BlockInfo, BlkPrevInfo
+     or McStateExtra); the path is the field path below that type (dictionary keys and BinTree positions left out).
   3. the slice handed to deserialize must afterwards hold exactly the tail.
          <Type>/consumed-too-little/<ctor>   bits or references of the value are left in front of the tail
          <Type>/consumed-too-much/<ctor>     part of the tail was eaten
@@ -417,21 +418,29 @@ def _kind(e, g):
     return 'differs'
 
 
-def _locate(top_name, v, path):
-    """(innermost TL-B type name, field path below it) for a difference at `path` of the value v"""
+def _covered(ctor):
+    """TL-B type name of a constructor when that type is one of the covered top-level types (else None)"""
+    tn = B.CTORS.get(ctor, (None,))[0]
+    return tn if tn in TYPES or tn == 'BlkPrevInfo' else None
+
+
+def _locate(top_name, v, path, innermost):
+    """(TL-B type name, field path below it) naming a difference at `path` of the value v.
+    innermost=False: the top-level type and the whole path (value cases: a component that is itself wrong has already been
+    blamed by the stand-alone re-check, so what is left belongs to the top-level parser);
+    innermost=True: the innermost covered type that holds the field (real block, where components cannot be re-checked
+    stand-alone) - the same name the value case of that type produces"""
     tname, start = top_name, 0
     cur = v
-    for i, tok in enumerate(path):
-        if isinstance(cur, dict) and cur.get('_') in B.CTORS:
-            tname, start = B.CTORS[cur['_']][0], i
-        try:
-            cur = cur[tok]
-        except (KeyError, IndexError, TypeError):
-            break
-    else:
-        if isinstance(cur, dict) and cur.get('_') in B.CTORS and len(path) > 0:
-            tname, start = B.CTORS[cur['_']][0], len(path)
-    rel = [str(tok) for tok in path[start:] if isinstance(tok, str) and tok not in ('items', 'value')]
+    if innermost:
+        for i, tok in enumerate(path):
+            if isinstance(cur, dict) and _covered(cur.get('_')):
+                tname, start = _covered(cur['_']), i
+            try:
+                cur = cur[tok]
+            except (KeyError, IndexError, TypeError):
+                break
+    rel = [str(tok) for tok in path[start:] if isinstance(tok, str) and tok not in ('items', 'value', 'left', 'right', 'leaf')]
     return tname, '.'.join(rel) or 'value'
 
 
@@ -440,11 +449,11 @@ def _short(v, n=240):
     return s if len(s) <= n else s[:n] + '…'
 
 
-def field_failures(top_name, exp, got, prefix=''):
+def field_failures(top_name, exp, got, innermost=False):
     fails = []
     for path, e, g in diff_all(exp, got):
-        tname, rel = _locate(top_name, exp, path)
-        fails.append(Fail(f'{prefix}{tname}/{rel}/{_kind(e, g)}',
+        tname, rel = _locate(top_name, exp, path, innermost)
+        fails.append(Fail(f'{tname}/{rel}/{_kind(e, g)}',
                           f'{".".join(map(str, path)) or "value"}: parsed {_short(g)} != encoded {_short(e)}'))
     return fails
 
@@ -735,7 +744,7 @@ def check_real_block(case):
     if not isinstance(e, dict):
         fails = [] if R.diff(e, g) is None else [Fail(f'Block/{comp}/{_kind(e, g)}', f'parsed {_short(g)} != {_short(e)}')]
     else:
-        fails = field_failures('Block', e, g)
+        fails = field_failures('Block', e, g, innermost=True)
     return _select(fails)
 
 
